@@ -345,3 +345,7 @@ fn test_elsewhere_declared_value_in_module() {
 #[cfg(librasn_compiler_verif)]
 #[allow(unused_imports)]
 pub(crate) use util::verif_hook as verif_hook_util;
+
+#[cfg(librasn_compiler_verif)]
+#[allow(unused_imports)]
+pub(crate) use enumerated::assign_enumeral_numbers as verif_assign_enumeral_numbers;
